@@ -12,7 +12,10 @@ InitChains(e) == IF e = "raw"
 
 \* the application switches between its initial chain and one with / without delta, with old, new or invalid lc/lp/pb
 MCTargets == {t \in ChainsAll : /\ t.lz = cfg.chain0.lz
-                                /\ t.pre \in {cfg.chain0.pre, IF cfg.chain0.pre = "none" THEN "delta" ELSE "none"}}
+                               /\ t.pre \in {cfg.chain0.pre, IF cfg.chain0.pre = "none" THEN "delta" ELSE "none"}}
+             \* ... or to a chain that is refused only when its filters are initialised (not with the threaded
+             \* encoder: there the worker thread finds out, see C08)
+             \cup (IF cfg.enc = "mt" THEN {} ELSE {Chain("armbad", cfg.chain0.lz, "p0")})
 
 MCInit == /\ \E e \in Encs, g \in Grants, k \in Checks :
                \E c \in InitChains(e), bs \in (IF e = "mt" THEN BSizes ELSE {0}) :
